@@ -66,7 +66,8 @@ func ConvertProtoHeaderToMetadata(
 				vals[i] = string(data)
 			}
 		}
-		asMetadata[key] = vals
+		// a key may be repeated (possibly with different letter case)
+		asMetadata[key] = append(asMetadata[key], vals...)
 	}
 	return asMetadata
 }
